@@ -25,6 +25,7 @@ Judge(k) ==
      /\ Report(k, "C17.ExactArgs", (ln(k).ev = "Tx" /\ ln(k).res = "ok" /\ Actor(A(k).path) \in Accts) =>
            LET a == Actor(A(k).path) IN
            LET x == Target(A(k).val) IN
+           IF A(k).op \in {"delegate", "undelegate", "redelegate"} /\ x \notin V THEN FALSE ELSE   \* executed for a validator that is not bonded
            CASE A(k).op = "delegate"   -> del'[a][x] = del[a][x] + A(k).amt /\ bal'[a] = bal[a] - A(k).amt /\ del'[a][Other(x)] = del[a][Other(x)]
              [] A(k).op = "undelegate" -> del'[a][x] = del[a][x] - A(k).amt /\ unb'[a] = unb[a] + A(k).amt /\ del'[a][Other(x)] = del[a][Other(x)]
              [] A(k).op = "redelegate" -> del'[a][x] = del[a][x] - A(k).amt /\ del'[a][Other(x)] = del[a][Other(x)] + A(k).amt /\ bal'[a] = bal[a] /\ unb'[a] = unb[a]
